@@ -23,7 +23,7 @@ EXHAUSTIVE = {"quick": False, "thorough": False}
 NSHARDS = {"quick": 16, "thorough": 16}
 THRESHOLDS = {
     "quick": {"repotests:ambient:solver:return?repotests:runs": 50, "c02:unreachable-raised": 1000, "c02:multi-route-pairs": 1000, "c02:adv-mazes": 100, "c02:self-query": 100,
-              "c02:exh-structures": 6541, "c02:from-targeted": 50, "ambient:solver:return": 20, "c02:array-args": 100, "c02:large-mazes": 60, "c02:side>127": 6, "c02:two-lane-mazes": 12, "c02:generator-made-mazes": 50, "c02:generator-made-disconnected": 15,
+              "c02:exh-structures": 6541, "c02:from-targeted": 50, "ambient:solver:return": 20, "c02:array-args": 100, "c02:large-mazes": 60, "c02:side>127": 6, "c02:two-lane-mazes": 12, "c02:long-lived-objects": 2, "c02:same-bytes-other-shape": 100, "c02:generator-made-mazes": 50, "c02:generator-made-disconnected": 15,
               "hits:find_shortest_path": 1000},
 }
 THRESHOLDS["thorough"] = {**THRESHOLDS["quick"], "c02:exh-structures-13-17-edges": 2 * 8192 + 2 * 131072}
@@ -242,6 +242,56 @@ def run(ctx):
             for (a, b) in ((s, e), (e, s)):
                 _solve(ctx, maze, g, a, b, dict(kind="two-lanes", n=n_cols, breaks=brk, transposed=tr, s=a, e=b), cache)
                 ctx.nontrivial("lanes", n_cols, brk, tr, a, b)
+    # ---- (2e) one long-lived maze object answering more than 2**16 queries (counters / epochs / caches that wrap or fill up) ------
+    if ctx.mine(5):
+        rng = ctx.sub_rng("longlived")
+        for (R, C), fam in (((3, 3), "ring"), ((4, 5), "cyc3")):
+            fam, cl = ref.random_structure(R, C, rng, fam)
+            g = Graph(cl)
+            maze = lib.lattice(cl)
+            cells = ref.all_cells(R, C)
+            cache = {}
+            allpairs = [(a, b) for a in cells for b in cells]
+            for (a, b) in allpairs:      # first sweep: every cell gets touched once
+                _solve(ctx, maze, g, a, b, dict(kind="long-lived", phase="first-sweep", shape=(R, C), cl=cl, s=a, e=b), cache)
+            # filler: cheap queries confined to one corner, judged like all others
+            corner = [cells[0], g.adj[cells[0]][0]] if g.adj[cells[0]] else [cells[0]]
+            n_fill = 2**16 + 40 - len(allpairs)
+            for t in range(n_fill):
+                a = corner[t % len(corner)]; b = corner[(t // 2) % len(corner)]
+                _solve(ctx, maze, g, a, b, dict(kind="long-lived", phase=f"filler query #{t}", shape=(R, C), cl=cl, s=a, e=b), cache)
+            for (a, b) in allpairs:      # after 2**16 queries on this object
+                _solve(ctx, maze, g, a, b, dict(kind="long-lived", phase="sweep after 65536 queries on the same object", shape=(R, C), cl=cl, s=a, e=b), cache)
+            ctx.tally("c02:long-lived-objects")
+    # ---- (2f) mazes of different shape whose connection arrays hold the same bytes, queried alternately --------------------------
+    fams = [[(2, 3), (3, 2)], [(2, 4), (4, 2)], [(1, 4), (2, 2), (4, 1)], [(3, 4), (4, 3), (2, 6), (6, 2)], [(2, 2), (1, 4)], [(4, 4), (2, 8), (8, 2)]]
+    jj = 0
+    for fi, shapes in enumerate(fams):
+        R0, C0 = shapes[0]
+        slots0 = ref.lattice_edge_slots(R0, C0)
+        masks = range(1 << len(slots0)) if len(slots0) <= 10 else [int(x) for x in ctx.sub_rng("twins", fi).integers(0, 1 << len(slots0), size=(300 if ctx.quick else 3000))]
+        for mask in masks:
+            jj += 1
+            if not ctx.mine(jj):
+                continue
+            cl0 = ref.cl_from_mask(R0, C0, mask, slots0)
+            twins = [((R0, C0), cl0)]
+            for (R1, C1) in shapes[1:]:
+                cl1 = cl0.reshape(-1).copy().reshape(2, R1, C1)      # the very same bytes, another grid shape
+                if not cl1[0, -1, :].any() and not cl1[1, :, -1].any():
+                    twins.append(((R1, C1), cl1))
+            if len(twins) < 2 or not cl0.any():
+                continue
+            ctx.tally("c02:same-bytes-other-shape")
+            mz = [(shp, cl, Graph(cl), lib.lattice(cl), ref.all_cells(*shp), {}) for shp, cl in twins]
+            for rnd in range(2):
+                for shp, cl, g, maze, cells, cache in mz:
+                    pairs = [(a, b) for a in cells for b in cells]
+                    if len(pairs) > 40:
+                        idx = ctx.sub_rng("twinpairs", fi, mask, rnd).choice(len(pairs), size=40, replace=False)
+                        pairs = [pairs[int(i)] for i in idx]
+                    for (a, b) in pairs:
+                        _solve(ctx, maze, g, a, b, dict(kind="same-bytes-other-shape", shapes=[t[0] for t in twins], shape=shp, cl=cl, s=a, e=b), cache)
     # ---- (2d) mazes as the generators hand them out (with generation metadata attached): every ordered pair ------------------
     from maze_dataset.generation.generators import GENERATORS_MAP
 
